@@ -23,7 +23,8 @@ RULE = ('history = sequence of operations against a real CourierServer reached t
         'chain are visible to the next; iteration yields exactly the elements in order and StopIteration with the return value; '
         'after a shutdown request every answer is the correct value or a retriable TimeoutError; a 60 s watchdog catches hangs); '
         'non-trivial = depth >= 2 with a remote-object hop, or an exception, or a shutdown mid-sequence; distinct = distinct '
-        'canonical case JSON')
+        'canonical case JSON'
+        '; also: expressions raising their own TimeoutError, shutdown arriving while a gated request executes (both call paths), async_get_result, the same cached array-argument expression evaluated twice, floods of 255..300 remote objects')
 ASSUMPTIONS = [
     'the in-process fake transport reproduces courier\'s observable contract (futures, deadline code 4, handler exceptions as status errors)',
     'server and client share one process, so the expected values come from the C17 eager model, not from a second local evaluation',
